@@ -6,10 +6,10 @@
 // ---------------------------------------------------------------------------------------------------------
 opaque_types!(Address, DataOption, ScriptRef, CborContainerType, TransactionInput, TransactionInputs, Certificates, Withdrawals, Update,
     AuxiliaryDataHash, AuxiliaryData, Mint, ScriptDataHash, Ed25519KeyHashes, NetworkId, VotingProcedures, VotingProposals,
-    PlutusList, TxInputsBuilder, CertificatesBuilder, WithdrawalsBuilder, MintBuilder, VotingBuilder, VotingProposalBuilder,
-    TransactionWitnessSet, ExUnitPrices, UnitInterval, LinearFee, ReferenceInputsMap, TransactionUnspentOutputs, ChangeConfigRest);
+    TxInputsBuilder, CertificatesBuilder, WithdrawalsBuilder, MintBuilder, VotingBuilder, VotingProposalBuilder,
+    ExUnitPrices, UnitInterval, LinearFee, ReferenceInputsMap, TransactionUnspentOutputs, ChangeConfigRest);
 pub type SlotBigNum = BigNum;
 
 macro_rules! clone_eq { ($($n:ident),* $(,)?) => { verus!{ $( impl Clone for $n { #[verifier::external_body] fn clone(&self) -> (r: Self) ensures r == *self { unimplemented!() } } )* } } }
-clone_eq!(Address, TransactionInput, TransactionInputs, AuxiliaryData, ScriptDataHash, Ed25519KeyHashes, PlutusList, TxInputsBuilder,
+clone_eq!(Address, TransactionInput, TransactionInputs, AuxiliaryData, ScriptDataHash, Ed25519KeyHashes, TxInputsBuilder,
     CertificatesBuilder, WithdrawalsBuilder, MintBuilder, VotingBuilder, VotingProposalBuilder, ExUnitPrices, UnitInterval, LinearFee, ReferenceInputsMap);
